@@ -69,6 +69,8 @@ func vsToolVariant(g string, v int) *metadatapb.ConsumerGroup {
 	case 2:
 		return &metadatapb.ConsumerGroup{GroupId: g, State: "preparing_rebalance", ProtocolType: "consumer", Leader: "m2",
 			Members: map[string]*metadatapb.GroupMember{"m1": {ClientId: "c1", Subscriptions: []string{"u"}}, "m2": {ClientId: "c2", ClientHost: "h2"}}}
+	case 3: // a dead group without members
+		return &metadatapb.ConsumerGroup{GroupId: g, State: "dead", ProtocolType: "consumer", GenerationId: 7, Members: map[string]*metadatapb.GroupMember{}}
 	}
 	return nil
 }
@@ -156,7 +158,7 @@ func vsGroupAbstract(id string, g *metadatapb.ConsumerGroup) int {
 		}
 		return p
 	}
-	for v := 1; v <= 2; v++ {
+	for v := 1; v <= 3; v++ {
 		if reflect.DeepEqual(strip(vsGroupProj(g)), strip(vsGroupProj(vsToolVariant(id, v)))) {
 			return v
 		}
@@ -170,9 +172,12 @@ func vsToolRead(t *testing.T, ctx context.Context, s metadata.Store, admin *clie
 	if err != nil {
 		t.Fatalf("Metadata: %v", err)
 	}
-	topics := [][]any{}
+	topics, porder := [][]any{}, [][]any{}
 	for _, tp := range meta.Topics {
 		topics = append(topics, []any{*tp.Topic, len(tp.Partitions)})
+		for _, part := range tp.Partitions { // stored order and content of the partition table
+			porder = append(porder, []any{*tp.Topic, part.Partition, part.Leader, part.LeaderEpoch, len(part.Replicas), len(part.ISR)})
+		}
 	}
 	next := [][]any{}
 	for _, tp := range sc.Topics {
@@ -248,7 +253,7 @@ func vsToolRead(t *testing.T, ctx context.Context, s metadata.Store, admin *clie
 			kv = append(kv, []any{string(e.Key), e.ModRevision, hex.EncodeToString(sum[:])})
 		}
 	}
-	return map[string]any{"topics": topics, "next": next, "coff": coff, "olist": olist, "groups": groups, "graw": graw, "glist": glist,
+	return map[string]any{"topics": topics, "porder": porder, "next": next, "coff": coff, "olist": olist, "groups": groups, "graw": graw, "glist": glist,
 		"cfgs": cfgs, "craw": craw, "kv": kv}
 }
 
@@ -390,7 +395,7 @@ func TestVerifStoreToolsReplay(t *testing.T) {
 			name, _ := it[0].(string)
 			cnt, _ := it[1].(float64)
 			topic := protocol.MetadataTopic{Topic: kmsg.StringPtr(name)}
-			for p := 0; p < int(cnt); p++ {
+			for p := int(cnt) - 1; p >= 0; p-- { // stored out of id order, as an operator-written snapshot may be
 				topic.Partitions = append(topic.Partitions, protocol.MetadataPartition{Partition: int32(p), Leader: 1, Replicas: []int32{1}, ISR: []int32{1}})
 			}
 			base.Topics = append(base.Topics, topic)
